@@ -176,7 +176,10 @@ func jsonEq(a, b any) bool {
 
 // diff names the first component in which disk differs from want, and
 // whether that component is the one the operation addressed.
-func diff(want, disk *model, addressed string) (string, string) {
+// part says what of an addressed user the operation wrote: "perm"
+// (PUT of a user definition: the password must be carried over), "pw"
+// (password endpoints: the permissions must be carried over) or "all".
+func diff(want, disk *model, addressed, part string) (string, string) {
 	if want.Exists != disk.Exists {
 		return "group-file", fmt.Sprintf("group file exists=%v, expected %v", disk.Exists, want.Exists)
 	}
@@ -213,18 +216,27 @@ func diff(want, disk *model, addressed string) (string, string) {
 		if !jsonEq(w.Pw, d.Pw) {
 			a, _ := json.Marshal(w.Pw)
 			b, _ := json.Marshal(d.Pw)
-			return pick(comp == "addressed", comp, "user-password"), fmt.Sprintf("password of user %q: expected %s, on disk %s", n, a, b)
+			return pick(comp == "addressed" && part != "perm", comp, "user-password"), fmt.Sprintf("password of user %q: expected %s, on disk %s", n, a, b)
 		}
 		if !jsonEq(w.Perm, d.Perm) {
 			a, _ := json.Marshal(w.Perm)
 			b, _ := json.Marshal(d.Perm)
-			return pick(comp == "addressed", comp, "user-permissions"), fmt.Sprintf("permissions of user %q: expected %s, on disk %s", n, a, b)
+			return pick(comp == "addressed" && part != "pw", comp, "user-permissions"), fmt.Sprintf("permissions of user %q: expected %s, on disk %s", n, a, b)
 		}
 	}
 	if !jsonEq(want.Wild, disk.Wild) {
 		a, _ := json.Marshal(want.Wild)
 		b, _ := json.Marshal(disk.Wild)
-		return pick(addressed == "wild", "addressed", "wildcard-user"), fmt.Sprintf("wildcard user: expected %s, on disk %s", a, b)
+		detail := fmt.Sprintf("wildcard user: expected %s, on disk %s", a, b)
+		switch {
+		case addressed != "wild":
+			return "wildcard-user", detail
+		case want.Wild != nil && disk.Wild != nil && part == "perm" && !jsonEq(want.Wild.Pw, disk.Wild.Pw):
+			return "wildcard-password", detail
+		case want.Wild != nil && disk.Wild != nil && part == "pw" && !jsonEq(want.Wild.Perm, disk.Wild.Perm):
+			return "wildcard-permissions", detail
+		}
+		return "addressed", detail
 	}
 	if !jsonEq(want.Keys, disk.Keys) {
 		a, _ := json.Marshal(want.Keys)
@@ -564,7 +576,7 @@ func (w *seqWorld) Apply(o seqx.Op) *core.Violation {
 		return r, panicked(r)
 	}
 
-	addressed := ""
+	addressed, part := "", "all"
 	var r response
 	var v *core.Violation
 	var postedUser *urec
@@ -620,6 +632,7 @@ func (w *seqWorld) Apply(o seqx.Op) *core.Violation {
 		name := pick(u == uNone, "", u)
 		addressed = "user:" + name
 		if kind == "user" {
+			part = "perm"
 			var ri int
 			fmt.Sscanf(arg[2], "%d", &ri)
 			role := seqRoles[ri]
@@ -643,6 +656,7 @@ func (w *seqWorld) Apply(o seqx.Op) *core.Violation {
 	case "wild", "delwild":
 		addressed = "wild"
 		if kind == "wild" {
+			part = "perm"
 			var ri int
 			fmt.Sscanf(arg[1], "%d", &ri)
 			role := seqWildRoles[ri]
@@ -670,6 +684,7 @@ func (w *seqWorld) Apply(o seqx.Op) *core.Violation {
 		url := "/.wildcard-user/.password"
 		name := ""
 		wild := strings.HasPrefix(kind, "w")
+		part = "pw"
 		if !wild {
 			url = userURL(arg[1]) + "/.password"
 			name = pick(arg[1] == uNone, "", arg[1])
@@ -770,7 +785,7 @@ func (w *seqWorld) Apply(o seqx.Op) *core.Violation {
 			want.Users[n] = urec{Pw: got.Pw, Perm: want.Users[n].Perm}
 		}
 	}
-	if comp, detail := diff(want, disk, addressed); comp != "" {
+	if comp, detail := diff(want, disk, addressed, part); comp != "" {
 		if comp == "addressed" || (comp == "other-fields" && addressed == "other") || (comp == "group-file" && addressed == "group") {
 			return viol("update-not-applied/"+kind, "the update was answered "+fmt.Sprint(r.Status)+" but the addressed item is not as requested: "+detail+"; "+strings.Join(trace, "; "))
 		}
